@@ -47,6 +47,24 @@ CHECKS = {
               "lambda_max, exact 1x1 closed form. The slack constant is calibrated and its worst observed ratio is reported. No absence proof."),
         note="Trusted: NumPy float64 eigvalsh/matrix_power; ridge reconstructed from the routine's own metrics (max_eigen_value, total_retries).",
         design="DESIGN.md section 3, C01"),
+    "C06": dict(
+        category="exploration",
+        technique="exhaustive small-scope enumeration (itertools.product over shapes x options, 16 processes) plus Hypothesis-drawn large irregular shapes, checked on index-valued tensors against NumPy slicing / reshape oracles",
+        text=("Complete enumeration within the stated bounds of merge_small_dims, BlockPartitioner, Preconditioner bookkeeping + statistics + "
+              "identity preconditioning, tearfree _blockify/_deblockify and the reshaper merge/unmerge pair (~5.9e4 cases quick), on arange "
+              "tensors so any permutation, duplication or loss shows; evidence sets exhaustive=true when every enumerated case ran. "
+              "Beyond the bound only sampled (Hypothesis large shapes)."),
+        note="Trusted: NumPy slicing/reshape/tensordot as the reference for blocks, Gram matrices and padding.",
+        design="DESIGN.md section 3, C06"),
+    "C10": dict(
+        category="exploration",
+        technique="property-based testing of the packed low-rank layout, its application path and _low_rank_root against dense NumPy float64 references (round trip, dense contraction, eigh-based root with spectral gap by construction)",
+        text=("Generated-input search (~5e3 cases quick): pack/unpack mutual inverses incl. slot disjointness with sentinels, "
+              "Preconditioner.preconditioned_grad with packed preconditioners == contraction with c(I-VV')+V diag(e) V' on every axis and "
+              "block (has_zeros -> unchanged), and _low_rank_root == NumPy eigh reference with the non-retained root values replaced by "
+              "their mean over the unpadded dimension, for both signs of the rank, paddings, exponents, ridge modes. No absence proof."),
+        note="Trusted: NumPy float64 eigh/tensordot; tolerances derived from eigen-gap and root conditioning (stated in evidence.assumptions).",
+        design="DESIGN.md section 3, C10"),
 }
 
 NOT_YET = {}
